@@ -1,6 +1,9 @@
 #!/usr/bin/env python3
 import json,sys
 pid=sys.argv[1]
+rnd=int(sys.argv[2]) if len(sys.argv)>2 else 1
+avoid=sys.argv[3] if len(sys.argv)>3 else ''
+a,b=(1,2) if rnd==1 else (2*rnd-1,2*rnd)
 for l in open('/verif/properties.jsonl'):
     p=json.loads(l)
     if p['id']==pid: break
@@ -14,7 +17,7 @@ FILES THE PROPERTY IS ANCHORED IN: {', '.join(p['anchors']['files'])}
 
 TASK: produce TWO different, independent changes to the go-zero source (not to tests) — at two different code sites or mechanisms — each of which BREAKS the property above while (a) the code still compiles, and (b) the EXISTING test suite of the touched package(s) and of packages that use them still passes. Prefer subtle changes that need something specific to manifest: a particular interleaving, a fault/crash at a particular point, a multi-step sequence of operations, an unusual input or configuration, or two cooperating sites that each look fine alone — NOT changes that ordinary use or the existing tests expose at once. Off-by-one errors in boundary arithmetic, a dropped or misplaced bookkeeping step on a rare path (error/panic/wrap-around/expiry/update-in-place), swapped order of two steps, a condition that is slightly too weak, a constant from the property statement changed — these are the flavour wanted. Each change should be small (a few lines).
 
-For EACH change i in {{1,2}} deliver, under {wt}/_out/m<i>/ :
+{('Earlier rounds already changed these sites; pick DIFFERENT functions/mechanisms: '+avoid+chr(10)+chr(10)) if avoid else ''}For EACH change i in {{{a},{b}}} deliver, under {wt}/_out/m<i>/ :
   - patch.diff   : `git diff` of ONLY the source change (relative to the worktree HEAD; do not include _out or test files), applies with `git apply` at the repository root
   - a demonstration: a Go test file (name it demo_test.go; say in README which package directory it must be copied into, and give it a unique test function name starting with TestSeeded) that FAILS with the change applied and PASSES without it; make it deterministic (no reliance on lucky timing; if it needs concurrency, force the interleaving)
   - README.md    : which clause of the property it breaks, what is needed for it to manifest, the exact commands you ran (existing tests with the change: pass; demo with the change: fail; demo without: pass) and their results.
